@@ -296,6 +296,8 @@ def compare(it, op, a, b, node):
             return _bools((x is b) == pos for x in a.vals)
         if isinstance(a, (ClsRef, ExtRef)) and isinstance(b, (ClsRef, ExtRef)):
             return (a == b) == pos
+        if isinstance(a, (dict, list)) or isinstance(b, (dict, list)):
+            return (a is b) == pos   # containers are modelled by identity
         raise _CE(f"identity comparison of {a!r} and {b!r}")
     if op in ("In", "NotIn"):
         r = contains(it, b, a, node)
